@@ -4918,8 +4918,22 @@ def float_script_repr(val,imports,prefix,settings):
         return "float('%r')" % val
     return repr(val)
 
+def dict_script_repr(container,imports,prefix,settings):
+    items = ['%s: %s' % (pprint(k,imports,prefix,settings), pprint(v,imports,prefix,settings))
+             for k, v in container.items()]
+    return '{'+', '.join(items)+'}'
+
+def set_script_repr(container,imports,prefix,settings):
+    if not container:
+        return repr(container)
+    rep = '{'+', '.join(pprint(i,imports,prefix,settings) for i in container)+'}'
+    return 'frozenset(%s)' % rep if isinstance(container, frozenset) else rep
+
 script_repr_reg[list] = container_script_repr
 script_repr_reg[tuple] = container_script_repr
+script_repr_reg[dict] = dict_script_repr
+script_repr_reg[set] = set_script_repr
+script_repr_reg[frozenset] = set_script_repr
 script_repr_reg[float] = float_script_repr
 script_repr_reg[FunctionType] = function_script_repr
 
